@@ -4,7 +4,7 @@
    The output is the section list in emission order; every get_*_index on a missing id, arena
    index of a dead id and local_indices[..] miss is [Panic]. *)
 From Coq Require Import List NArith ZArith Bool. Import ListNotations.
-From WV Require Import Gen.Ops Model.Common Model.IR Model.Arena Model.Traversal Model.EmitFn Model.Locals Model.ModuleM Model.ParseM.
+From WV Require Import Gen.Ops Model.Common Model.IR Model.Arena Model.Traversal Model.EmitFn Model.Locals Model.ModuleM Model.ParseM Gen.Attrs.
 Open Scope N_scope.
 
 (* IdsToIndices: per space id -> index, in push order *)
@@ -78,17 +78,17 @@ Definition emit_import (m : wir) (x : x2i) (i : mimport) : res (wimport * x2i) :
       let x1 := push_idx x S_table t in
       tb <- of_opt (aget (m_tables m) t) ;;
       Ok ({| wi_module := im_module i; wi_name := im_name i;
-             wi_kind := WI_Table {| wt_elem := tb_elem tb; wt_64 := tb_64 tb; wt_init := tb_init tb; wt_max := tb_max tb |} |}, x1)
+             wi_kind := WI_Table (gen_emit_table_import tb) |}, x1)
   | MI_Mem mm =>
       let x1 := push_idx x S_memory mm in
       me <- of_opt (aget (m_memories m) mm) ;;
       Ok ({| wi_module := im_module i; wi_name := im_name i;
-             wi_kind := WI_Mem {| wm_64 := me_64 me; wm_shared := me_shared me; wm_init := me_init me; wm_max := me_max me; wm_page := me_page me |} |}, x1)
+             wi_kind := WI_Mem (gen_emit_memory_import me) |}, x1)
   | MI_Global g =>
       let x1 := push_idx x S_global g in
       gl <- of_opt (aget (m_globals m) g) ;;
       Ok ({| wi_module := im_module i; wi_name := im_name i;
-             wi_kind := WI_Global {| wg_ty := gl_ty gl; wg_mut := gl_mut gl; wg_shared := gl_shared gl |} |}, x1)
+             wi_kind := WI_Global (gen_emit_global_import gl) |}, x1)
   end.
 Fixpoint emit_imports_l (m : wir) (x : x2i) (l : list mimport) : res (list wimport * x2i) :=
   match l with
@@ -141,14 +141,14 @@ Definition emit_tables (m : wir) (x : x2i) : list wsec * x2i :=
   let l := filter (fun p => match tb_import (snd p) with None => true | Some _ => false end) (aiter (m_tables m)) in
   match l with
   | [] => ([], x)
-  | _ => ([S_Tables (map (fun p => {| wt_elem := tb_elem (snd p); wt_64 := tb_64 (snd p); wt_init := tb_init (snd p); wt_max := tb_max (snd p) |}) l)],
+  | _ => ([S_Tables (map (fun p => gen_emit_table_local (snd p)) l)],
           fold_left (fun x p => push_idx x S_table (fst p)) l x)
   end.
 Definition emit_memories (m : wir) (x : x2i) : list wsec * x2i :=
   let l := filter (fun p => match me_import (snd p) with None => true | Some _ => false end) (aiter (m_memories m)) in
   match l with
   | [] => ([], x)
-  | _ => ([S_Mems (map (fun p => {| wm_64 := me_64 (snd p); wm_shared := me_shared (snd p); wm_init := me_init (snd p); wm_max := me_max (snd p); wm_page := me_page (snd p) |}) l)],
+  | _ => ([S_Mems (map (fun p => gen_emit_memory_local (snd p)) l)],
           fold_left (fun x p => push_idx x S_memory (fst p)) l x)
   end.
 (* ConstExpr::to_wasmencoder_type *)
@@ -172,7 +172,7 @@ Definition emit_globals (m : wir) (x : x2i) : res (list wsec * x2i) :=
                   let x1 := push_idx x S_global id in
                   wc <- emit_const x1 c ;;
                   b <- go r x1 ;;
-                  Ok (({| wg_ty := gl_ty g; wg_mut := gl_mut g; wg_shared := gl_shared g |}, wc) :: fst b, snd b)
+                  Ok ((gen_emit_global_local g, wc) :: fst b, snd b)
               end) l x ;;
       Ok ([S_Globals (fst r)], snd r)
   end.
